@@ -395,6 +395,8 @@ class BoundsAnalysis:
         self.closure_made = {}     # creation point -> (closure path, projected entry zone)
         self.closure_local = {}    # local holding a closure -> (creation point, aggregate)
         self.entry = None          # entry zone (closures: facts about immutably captured locations)
+        self.calls_made = {}       # crate-local callee key -> [projected zone per call site]
+        self.arith = {}            # point -> verdict for Overflow / division asserts
 
     # ---- variables
     def is_int(self, ty):
@@ -614,6 +616,12 @@ class BoundsAnalysis:
                     z.add(B[0], x, -B[1])
             return
         ty = self.operand_ty(r['a'])
+        if op == 'Shl' and B is not None and B[0] == Z and ty in UNSIGNED_BITS and 0 <= B[1] < UNSIGNED_BITS[ty] and \
+                not (A is not None and A[0] == Z):
+            self.set_var(z, x, None)
+            z.add(x, Z, 2 ** UNSIGNED_BITS[ty] - 2 ** B[1])
+            z.add(Z, x, 0)
+            return
         if op == 'BitOr' and A is not None and B is not None and ty in UNSIGNED_BITS and A[0] == x:
             # x |= b : x grows by at most ub(b)
             zz = z.copy()
@@ -694,6 +702,8 @@ class BoundsAnalysis:
                     if d[0] == cl:
                         for x in locs:
                             self.kill_related(z, x)
+        if local_callee is not None and local_callee.d['kind'] != 'Closure':
+            self.calls_made.setdefault(local_callee.key, []).append(self.project_call(z, t, local_callee))
         if name == 'then' and len(args) == 2 and args[0]['k'] in ('copy', 'move') and not args[0]['p']['pr'] \
                 and args[1]['k'] in ('copy', 'move') and not args[1]['p']['pr'] and local_callee is None:
             info = self.cmp.get(args[0]['p']['l'])
@@ -746,6 +756,32 @@ class BoundsAnalysis:
         if dty in UNSIGNED_BITS:
             z.add(Z, dx, 0)
 
+    def shr_tighten(self, z, info, bi):
+        """x = a >> k (x a temp defined in this very block, a not written since) and x <= c  give  a <= ((c + 1) << k) - 1"""
+        b = self.b
+        for side in info[1:]:
+            v = side[0]
+            if v == Z or v[0] != 'loc' or len(v[1]) != 1:
+                continue
+            d = _single_def(b, v[1][0])
+            if d is None or d[1] != 'assign' or d[0][0] != bi:
+                continue
+            r = d[2]['r']
+            if r['k'] != 'bin' or r['op'] not in ('Shr', 'ShrUnchecked') or r['b']['k'] != 'const' or 'int' not in r['b']:
+                continue
+            k = r['b']['int']
+            A = self.operand(r['a'])
+            if A is None or A[0] == Z or not (0 <= k < 64) or self.operand_ty(r['a']) not in UNSIGNED_BITS:
+                continue
+            # nothing may write `a` between the shift and the end of the block
+            stmts = b.stmts(bi)
+            if any(point_writes(b, st, A[0][1], self.caps) for st in stmts[d[0][1] + 1:]):
+                continue
+            zz = z.copy()
+            ub = zz.bound(v, Z)
+            if ub is not None and ub >= 0:
+                z.add(A[0], Z, (((ub + 1) << k) - 1) - A[1])
+
     def refine(self, z, info, truth):
         op, A, B = info
         if not truth:
@@ -775,6 +811,51 @@ class BoundsAnalysis:
             d2 = zz.bound(b_, a)
             if d2 is not None and d2 + bo - ao <= 0:
                 le(b_, bo, a, ao, True)
+
+    def project_call(self, z, t, cb):
+        """constraints among the callee's parameters implied by the caller's state at the call"""
+        out = Zone()
+        if z.bottom:
+            out.bottom = True
+            return out
+        ren = []
+        consts = []
+        for i, a in enumerate(t['args']):
+            pl = i + 1
+            if pl > cb.arg_count:
+                break
+            if a['k'] == 'const':
+                if 'int' in a:
+                    consts.append((('loc', (pl,)), a['int']))
+                continue
+            if a['k'] not in ('copy', 'move'):
+                continue
+            P = loc_of_place(self.b, a['p'])
+            if P is not None:
+                ren.append((P, (pl,)))
+
+        def tr(v):
+            if v == Z:
+                return [Z]
+            return [(v[0], C + v[1][len(P):]) for P, C in ren if v[1][:len(P)] == P]
+        keep = {v for v in z.vars() if tr(v)}
+        zz = z.copy()
+        for (y, x), c in zz.closed(keep).items():
+            for ty_ in tr(y):
+                for tx in tr(x):
+                    if tx != ty_:
+                        out.add(tx, ty_, c)
+        for v, c in consts:
+            out.add(v, Z, c)
+            out.add(Z, v, -c)
+        # two parameters fed from the same caller location are equal
+        for i, (P, C) in enumerate(ren):
+            for P2, C2 in ren[i + 1:]:
+                if P == P2:
+                    for kind in ('loc', 'len'):
+                        out.add((kind, C), (kind, C2), 0)
+                        out.add((kind, C2), (kind, C), 0)
+        return out
 
     def project(self, z, agg):
         """constraints among the locations a closure captures immutably, renamed into the closure's own locations"""
@@ -902,6 +983,7 @@ class BoundsAnalysis:
                     z2 = z.copy()
                     if isbool and info is not None:
                         self.refine(z2, info, v != 0)
+                        self.shr_tighten(z2, info, bi)
                     elif not isbool and dv is not None and t.get('dty') in INT_TYS:
                         z2.add(dv[0], Z, v - dv[1])
                         z2.add(Z, dv[0], dv[1] - v)
@@ -909,6 +991,7 @@ class BoundsAnalysis:
                 z2 = z.copy()
                 if isbool and info is not None and len(tvals) == 1:
                     self.refine(z2, info, tvals[0] == 0)
+                    self.shr_tighten(z2, info, bi)
                 elif not isbool and dv is not None and t.get('dty') in UNSIGNED_BITS:
                     k2 = 0
                     while k2 in tvals:
@@ -927,6 +1010,8 @@ class BoundsAnalysis:
                     I, L = self.operand(m['index']), self.operand(m['len'])
                     if I is not None and L is not None:
                         z.add(I[0], L[0], L[1] - I[1] - 1)
+                elif isinstance(m, dict) and m.get('kind') in ('Overflow', 'OverflowNeg', 'DivisionByZero', 'RemainderByZero'):
+                    self.check_arith(z, t, pt)
                 if t.get('t') is not None:
                     outs.append((t['t'], z))
             elif t['k'] == 'drop':
@@ -999,7 +1084,47 @@ class BoundsAnalysis:
             else:
                 why = 'no bound of the index by the length of %s on some path (best: %s)' % (_fmt(cv), bd)
         self.sites[pt] = {'kind': 'index', 'ok': ok, 'why': why, 'span': t['s'], 'cont_ty': (t.get('arg_tys') or ['?'])[0],
-                          'container': _fmt(cv) if cv else None}
+                          'container': _fmt(cv) if cv else None, 'via_index_vector': _from_index_vector(self.b, t['args'][1])}
+
+    def check_arith(self, z, t, pt):
+        m = t['msg']
+        kind, op = m.get('kind'), m.get('op')
+        ok, why = False, ''
+        A = self.operand(m['a']) if isinstance(m.get('a'), dict) else None
+        B = self.operand(m['b']) if isinstance(m.get('b'), dict) else None
+        ty = m.get('a_ty')
+        if z.bottom:
+            ok, why = True, 'unreachable'
+        elif kind == 'Overflow' and op in ('Shl', 'Shr'):
+            bits = {'u8': 8, 'i8': 8, 'u16': 16, 'i16': 16, 'u32': 32, 'i32': 32, 'u64': 64, 'i64': 64, 'usize': 64, 'isize': 64}.get(ty)
+            if B is not None and B[0] == Z and bits and 0 <= B[1] < bits:
+                ok, why = True, 'constant shift amount %d < %d' % (B[1], bits)
+            elif B is not None and bits:
+                zz = z.copy()
+                ub = zz.bound(B[0], Z)
+                lb = zz.bound(Z, B[0])
+                if ub is not None and ub + B[1] < bits and lb is not None and lb - B[1] <= 0:
+                    ok, why = True, 'shift amount <= %d < %d' % (ub + B[1], bits)
+                else:
+                    why = 'shift amount not bounded below the bit width'
+        elif kind == 'Overflow' and op == 'Sub' and ty in UNSIGNED_BITS and A is not None and B is not None:
+            zz = z.copy()
+            bd = zz.bound(B[0], A[0])
+            if bd is not None and bd + B[1] - A[1] <= 0:
+                ok, why = True, 'subtrahend <= minuend'
+            else:
+                why = 'no fact that the subtrahend is <= the minuend on some path'
+        elif kind == 'Overflow' and op == 'Add' and ty in UNSIGNED_BITS and A is not None and B is not None:
+            zz = z.copy()
+            ua = A[1] if A[0] == Z else (None if zz.bound(A[0], Z) is None else zz.bound(A[0], Z) + A[1])
+            ub = B[1] if B[0] == Z else (None if zz.bound(B[0], Z) is None else zz.bound(B[0], Z) + B[1])
+            if ua is not None and ub is not None and ua + ub <= 2 ** UNSIGNED_BITS[ty] - 1:
+                ok, why = True, 'sum <= %d' % (ua + ub)
+            else:
+                why = 'no upper bound that keeps the sum inside %s' % ty
+        else:
+            why = 'not discharged (%s %s on %s)' % (kind, op, ty)
+        self.arith[pt] = {'kind': kind, 'op': op, 'ty': ty, 'ok': ok, 'why': why, 'span': t.get('s', '')}
 
     def check_assert(self, z, t, pt):
         m = t['msg']
@@ -1052,32 +1177,100 @@ def _locals_in(x, out=None):
     return out
 
 
+def _address_taken(facts):
+    """def paths of crate functions that are used as values (not only called)"""
+    out = set()
+
+    def scan(x):
+        if isinstance(x, dict):
+            if x.get('k') == 'const' and x.get('fn'):
+                fn = x['fn']
+                if isinstance(fn, dict):
+                    out.add(fn.get('resolved') or fn.get('path'))
+                    out.add(fn.get('path'))
+                else:
+                    out.add(fn)
+            for v in x.values():
+                if isinstance(v, (dict, list)):
+                    scan(v)
+        elif isinstance(x, list):
+            for v in x:
+                scan(v)
+    for b in facts.body_list:
+        for bl in b.blocks:
+            for st in bl['stmts']:
+                scan(st)
+            t = bl['term']
+            if t['k'] == 'call':
+                for a in t['args']:
+                    scan(a)
+            else:
+                scan(t)
+    return out
+
+
 def analyse_crate(facts, want=None):
-    """run the analysis over every body (parents before their closures); returns {body key: {point: site}}"""
+    """run the analysis over every body (parents before their closures); private helper functions are analysed a second time
+    with the facts every one of their call sites establishes about their parameters; returns {body key: {point: site}}"""
     bodies = [b for b in facts.body_list if b.promoted is None]
     bodies.sort(key=lambda b: b.path.count('{closure'))
-    entries = {}
-    out = {}
-    for b in bodies:
+    taken = _address_taken(facts)
+
+    def interesting(b):
         has_sites = any((t.get('callee') or {}).get('name') in ('index', 'index_mut') for _, t in b.calls()) or \
             any(b.term(i)['k'] == 'assert' and isinstance(b.term(i).get('msg'), dict) and b.term(i)['msg'].get('kind') == 'BoundsCheck'
                 for i in range(len(b.blocks)))
         has_closures = any(s['k'] == 'assign' and s['r']['k'] == 'agg' and s['r'].get('ak') == 'closure' for _, s in b.points())
-        if not has_sites and not has_closures:
+        return has_sites, has_closures
+    # which crate-local functions does somebody call?  (every body is scanned, also those without index sites)
+    fn_entries = {}
+    out = {}
+
+    def run_all(use_fn_entries):
+        entries = {}
+        calls = {}
+        res = {}
+        for b in bodies:
+            has_sites, has_closures = interesting(b)
+            calls_local = any(facts.body((t.get('callee') or {}).get('resolved') or (t.get('callee') or {}).get('path') or '') is not None
+                              for _, t in b.calls())
+            if not has_sites and not has_closures and not calls_local:
+                continue
+            a = BoundsAnalysis(facts, b)
+            if b.d['kind'] == 'Closure':
+                zs = entries.get(b.path)
+                if zs:
+                    e = zs[0]
+                    for z2 in zs[1:]:
+                        e = join(e, z2, None)
+                    a.entry = e
+            elif use_fn_entries and b.key in fn_entries:
+                a.entry = fn_entries[b.key]
+            sites = a.run()
+            for pt, (path, z) in a.closure_made.items():
+                entries.setdefault(path, []).append(z)
+            for k, zs in a.calls_made.items():
+                calls.setdefault(k, []).extend(zs)
+            if sites:
+                res[b.key] = sites
+        return res, calls
+    out, calls = run_all(False)
+    for k, zs in calls.items():
+        cb = facts.body(k)
+        if cb is None or cb.d.get('pub') or cb.d.get('vis') == 'pub' or k in taken or cb.path in taken:
             continue
-        a = BoundsAnalysis(facts, b)
-        if b.d['kind'] == 'Closure':
-            zs = entries.get(b.path)
-            if zs:
-                e = zs[0]
-                for z2 in zs[1:]:
-                    e = join(e, z2, None)
-                a.entry = e
-        sites = a.run()
-        for pt, (path, z) in a.closure_made.items():
-            entries.setdefault(path, []).append(z)
-        if sites:
-            out[b.key] = sites
+        if cb.d.get('impl_trait'):
+            continue            # trait methods can be called through the trait
+        zs = [z for z in zs if not z.bottom]
+        if not zs:
+            continue
+        e = zs[0]
+        for z2 in zs[1:]:
+            e = join(e, z2, None)
+        if e.e:
+            fn_entries[k] = e
+    if fn_entries:
+        out, _ = run_all(True)
     return out
 
 
@@ -1092,8 +1285,6 @@ ASSUMED = {
     'Vec<helpers::SourceMapLineData>': (1, 'combined map: `find_inner_mapping` returned Some for this line, which it does only after '
                                            'checking `line <= len` (fact established in another closure)'),
     'Vec<rope::Rope>': (1, 'combined map: `chunks[idx]`, one chunk per 5-number segment of the same line (data-structure invariant)'),
-    'Vec<replace_source::Replacement>': (1, 'ReplaceSource::sorted_replacement: the sorted index is a permutation of 0..replacements.len() '
-                                            '(rebuilt whenever the flag is reset: rules RESET / FRESH / PUBLISH-ORDER)'),
     'Vec<&replace_source::Replacement>': (1, 'ReplaceSource::stream_chunks: `repls[i]` under `next_replacement.is_some()`, which is set '
                                              'only from `i < repls.len()` (option-valued invariant)'),
     'Vec<(&str, usize)>': (3, 'rope Lines::next: the chunk cursor is advanced only while `< chunks.len() - 1`; the two `for_each` bodies '
@@ -1103,6 +1294,39 @@ ASSUMED = {
                     'CharIndices::next after skipping empty pieces (the last piece is never empty), Rope == Rope piece cursors '
                     'bounded by the total byte count — data-structure invariants, not comparisons with the indexed slice\'s length'),
 }
+
+
+def _from_index_vector(b, o, depth=0):
+    """is the operand a `usize` loaded through a `&usize` that is a closure parameter or an iterator item (the payload of an
+    `Option<&usize>`), i.e. an element of a vector / range of positions handed out by an iterator adaptor?"""
+    if depth > 6 or o['k'] not in ('copy', 'move'):
+        return False
+    p = o['p']
+    l = p['l']
+    ty = b.local_ty(l)
+    if p['pr'] == ['*'] or (p['pr'] and p['pr'][0] == '*' and all(x == '*' for x in p['pr'])):
+        if ty.replace('&', '').strip() == 'usize' and ty.startswith('&'):
+            if b.d['kind'] == 'Closure' and b.is_arg(l) and l >= 2:
+                return True
+            d = _single_def(b, l)
+            if d is not None and d[1] == 'assign' and d[2]['r']['k'] == 'use' and d[2]['r']['o']['k'] in ('copy', 'move'):
+                q = d[2]['r']['o']['p']
+                if any(isinstance(x, dict) and x.get('dc') == 'Some' for x in q['pr']):
+                    return True
+                if not q['pr'] or all(x == '*' for x in q['pr']):
+                    return _from_index_vector(b, {'k': 'copy', 'p': {'l': q['l'], 'pr': ['*'], 'ty': 'usize'}}, depth + 1)
+        return False
+    if p['pr']:
+        return False
+    if b.d['kind'] == 'Closure' and b.is_arg(l) and l >= 2 and ty == 'usize':
+        return True
+    d = _single_def(b, l)
+    if d is None or d[1] != 'assign':
+        return False
+    r = d[2]['r']
+    if r['k'] == 'use':
+        return _from_index_vector(b, r['o'], depth + 1)
+    return False
 
 
 def _elem_group(site, body):
@@ -1124,7 +1348,7 @@ def rule_index_guarded(ctx, config='dev'):
                                     'only with facts that put the index below the container\'s length: zone-domain abstract '
                                     'interpretation of each body (guards, resize / growth loops, len()-derived indices, closure entry '
                                     'facts); decides the upper bound only, not the overflow of `x - 1` nor range slicing')
-    r.floor = 60
+    r.floor = 30
     res = analyse_crate(f)
     groups = {}
     for key, sites in res.items():
@@ -1134,6 +1358,10 @@ def rule_index_guarded(ctx, config='dev'):
             inst = '%s: %s[..] (%s)' % (b.path, g, s['kind'])
             if s['ok']:
                 r.site(inst + ': ' + s['why'], s['span'], 'ok')
+            elif s.get('via_index_vector'):
+                r.site(inst + ': not proven; assumed: the index is an element handed out by an iterator over a vector / range of '
+                              'positions (an index vector such as ReplaceSource\'s sorted index holds positions of the list it '
+                              'indexes — a data-structure invariant; its freshness is RESET / FRESH / PUBLISH-ORDER)', s['span'], 'assumed')
             else:
                 groups.setdefault(g, []).append((b, s, inst))
     for g, lst in sorted(groups.items()):
@@ -1150,5 +1378,72 @@ def rule_index_guarded(ctx, config='dev'):
                     'accepted on the pinned tree%s): %s — a hostile source map / position makes the access panic' % (
                         len(lst), g, allowed, (', for: ' + reason) if reason else '',
                         '; '.join('%s at %s (%s)' % (b.path, s['span'], s['why']) for b, s, inst in lst)))
+    r.check_floor()
+    return r
+
+
+ENC_ASSUMED = {
+    # (method of the encoder, operation): (count, reason)
+    ('encode', 'Sub'): (1, 'LinesOnlyMappingsEncoder::encode: `mapping.generated_line - self.current_line` — segments arrive sorted by '
+                           'generated position (the documented domain of C17: "source maps with sorted segments"; the streaming '
+                           'functions emit in generated order) and `current_line` only ever takes the value of an earlier segment'),
+}
+
+
+def rule_encoder_total(ctx, config='dev'):
+    """every arithmetic / indexing panic site of the mappings encoders is discharged"""
+    from .. import anchors
+    f = ctx.facts(config)
+    r = RuleResult('ENCODER-TOTAL', 'the mappings encoders (both `encode` implementations and the VLQ writer they call) cannot panic on any '
+                                    'decoded value: every overflow-checked subtraction has its subtrahend below its minuend, every '
+                                    'addition stays inside the type, every shift amount is below the bit width, every table index is in '
+                                    'range — each discharged by the zone analysis of the body, or listed with the input assumption it '
+                                    'needs')
+    r.floor = 8 if f.meta().get('overflow_checks') else 1
+    tr = anchors.trait_path(f, 'MappingsEncoder')
+    roots = [b for b in f.body_list if b.promoted is None and b.d['kind'] != 'Closure' and b.d.get('impl_trait') == tr and b.name == 'encode']
+    if not roots:
+        raise anchors.AnchorMissing('no MappingsEncoder::encode implementation')
+    scope, work = [], list(roots)
+    while work:
+        b = work.pop()
+        if b in scope:
+            continue
+        scope.append(b)
+        for cb in f.closures_of(b):
+            work.append(cb)
+        for pt, t in b.calls():
+            c = t.get('callee')
+            hb = f.body(c.get('resolved') or c['path']) if c else None
+            if hb is not None and hb.promoted is None:
+                work.append(hb)
+    unproven = {}
+    for b in scope:
+        a = BoundsAnalysis(f, b)
+        a.run()
+        for pt, v in sorted(a.arith.items()):
+            inst = '%s: %s %s on %s' % (b.path, v['kind'], v['op'] or '', v['ty'])
+            if v['ok']:
+                r.site(inst + ': ' + v['why'], v['span'], 'ok')
+            else:
+                unproven.setdefault((b.name, v['op']), []).append((b, v, inst))
+        for pt, v in sorted(a.sites.items()):
+            inst = '%s: %s' % (b.path, v['kind'])
+            if v['ok']:
+                r.site(inst + ': ' + v['why'], v['span'], 'ok')
+            else:
+                unproven.setdefault((b.name, 'index'), []).append((b, v, inst))
+    for key, lst in sorted(unproven.items(), key=repr):
+        allowed, reason = ENC_ASSUMED.get(key, (0, None))
+        if len(lst) <= allowed:
+            for b, v, inst in lst:
+                r.site(inst + ': not proven; assumed: ' + reason, v['span'], 'assumed')
+            continue
+        for b, v, inst in lst:
+            r.site(inst + ': ' + v['why'], v['span'], 'violation')
+        r.violation('%s:%s:%d>%d' % (lst[0][0].path, key[1], len(lst), allowed), lst[0][1]['span'], lst[0][0].path,
+                    '%d `%s` site(s) of the encoder can panic (at most %d accepted%s): %s' % (
+                        len(lst), key[1], allowed, (' for: ' + reason) if reason else '',
+                        '; '.join('%s at %s (%s)' % (b.path, v['span'], v['why']) for b, v, inst in lst)))
     r.check_floor()
     return r
